@@ -3,7 +3,7 @@ C08 — nonlinear FIBER conserves energy up to loss (for every adaptive step sch
 form without dispersion, treats one polarisation like the x-polarisation of two, and terminates.
 Theorems about `Model/FiberNL.lean` at ℝ; the driver runs the same definitions at Float against FIBER().
 -/
-import OptiVerif.Lemmas.FiberNL
+import OptiVerif.Lemmas.FiberNLTerm
 
 namespace OptiVerif.Props.C08
 open OptiVerif OptiVerif.Fourier OptiVerif.Fiber OptiVerif.FiberNL
@@ -124,5 +124,80 @@ theorem spm_closed_form (wConv kappa fs alpha gamma phiMax L : ℝ) (hg : gamma 
           a * Cx.smul (Real.exp (-(alpha / kappa / 2) * L)) (Cx.cis (gamma * lEff (alpha / kappa) L * a.normSq)))), []⟩ := by
   unfold fiber
   simp [hg, spmRow, Cx.exp]
+
+
+/-! ### one polarisation ≡ x-polarisation of two with empty y -/
+
+/-- FIBER on the two-polarisation signal [x, 0] returns [FIBER(x), 0] with exactly the same step schedule:
+    the one-polarisation signal propagates like the x-polarisation of its twin and the empty polarisation stays empty -/
+theorem one_pol_eq_x_pol (wConv kappa fs alpha b2 b3 gamma phiMax L : ℝ) (fuel : ℕ) (x : List (Cx ℝ)) :
+    fiber wConv kappa fs alpha b2 b3 gamma phiMax L fuel [x, zeros x.length]
+      = (fiber wConv kappa fs alpha b2 b3 gamma phiMax L fuel [x]).map
+          (fun o => ⟨[o.rows.headD [], zeros (o.rows.headD []).length], o.steps⟩) :=
+  fiber_twin wConv kappa fs alpha b2 b3 gamma phiMax L fuel x
+
+/-! ### termination -/
+
+/-- **termination with an explicit bound**: for a non-zero field in one of the two container layouts, positive
+    gamma and phi_max, non-negative loss, the adaptive loop returns as soon as the fuel exceeds
+    L·gamma·E0/phi_max + 2 (E0 = total input energy): no input makes FIBER loop forever. -/
+theorem terminates (wConv kappa fs alpha b2 b3 gamma phiMax L : ℝ) (A : Rows ℝ) (hA : Layout A)
+    (hg : 0 < gamma) (hdisp : ¬ (b2 = 0 ∧ b3 = 0)) (hphi : 0 < phiMax) (hL : 0 < L) (ha : 0 ≤ alpha / kappa)
+    (hE : 0 < energy A) (fuel : ℕ) (hfuel : L * gamma * energy A / phiMax + 2 < fuel) :
+    ∃ out, fiber wConv kappa fs alpha b2 b3 gamma phiMax L fuel A = .ok out := by
+  unfold fiber
+  simp only
+  have hnd : (Cmp.eqz b2 && Cmp.eqz b3) = false := by
+    rcases Classical.em (b2 = 0) with h2 | h2
+    · have h3 : b3 ≠ 0 := fun h3 => hdisp ⟨h2, h3⟩
+      simp [h2, h3]
+    · simp [h2]
+  simp only [hnd, Bool.false_and, Bool.false_eq_true, if_false]
+  have hpk := peak_pos A hA hE
+  have hfirst : firstH b2 b3 gamma phiMax L A = min L (phiMax / (gamma * peak A)) := by
+    simp only [firstH, hnd, Bool.false_or]
+    have : Cmp.eqz gamma = false := by simp [hg.ne']
+    simp only [this, Bool.false_eq_true, if_false]
+    by_cases hlt : L < phiMax / (gamma * peak A)
+    · simp [hlt, min_eq_left (le_of_lt hlt)]
+    · simp [hlt, min_eq_right (not_lt.mp hlt)]
+  have hh0 : 0 ≤ firstH b2 b3 gamma phiMax L A := by
+    rw [hfirst]
+    exact le_min hL.le (div_nonneg hphi.le (mul_pos hg hpk).le)
+  have hhL : firstH b2 b3 gamma phiMax L A ≤ L := by rw [hfirst]; exact min_le_left _ _
+  have hmin_pos : 0 < phiMax / (gamma * energy A) := div_pos hphi (mul_pos hg hE)
+  obtain ⟨r, hr⟩ := loop_terminates wConv fs (alpha / kappa) b2 b3 gamma phiMax L (energy A) hg hphi ha hE fuel A
+    (firstH b2 b3 gamma phiMax L A) (firstH b2 b3 gamma phiMax L A) [] hA hE le_rfl hh0 hhL (by
+      have h1 : (L - firstH b2 b3 gamma phiMax L A) / (phiMax / (gamma * energy A)) ≤ L / (phiMax / (gamma * energy A)) := by
+        rw [div_le_div_iff_of_pos_right hmin_pos]; linarith
+      have h2 : L / (phiMax / (gamma * energy A)) = L * gamma * energy A / phiMax := by
+        field_simp
+      linarith)
+  rw [hr]
+  obtain ⟨A', acc, xl⟩ := r
+  simp only
+  split
+  · exact ⟨_, rfl⟩
+  · exact ⟨_, rfl⟩
+
+/-- without nonlinearity one full-length step is taken and the loop stops at once (fuel 1 suffices) -/
+theorem terminates_linear (wConv kappa fs alpha b2 b3 phiMax L : ℝ) (A : Rows ℝ) (hL : 0 < L) (fuel : ℕ) (hf : 1 ≤ fuel) :
+    ∃ out, fiber wConv kappa fs alpha b2 b3 0 phiMax L fuel A = .ok out := by
+  obtain ⟨f, rfl⟩ : ∃ f, fuel = f + 1 := ⟨fuel - 1, by omega⟩
+  unfold fiber
+  have hz : Cmp.eqz (0 : ℝ) = true := by simp
+  simp only [hz, Bool.not_true, Bool.and_false, Bool.false_eq_true, if_false, firstH, Bool.or_true, if_true,
+    loop, nextH]
+  have h1 : Cmp.lt L L = false := by simp
+  have h2 : Cmp.lt L (L + L) = true := by simp; linarith
+  simp only [h1, Bool.false_eq_true, if_false, h2, if_true]
+  split
+  · exact ⟨_, rfl⟩
+  · exact ⟨_, rfl⟩
+
+/-! ### non-vacuity -/
+
+example : Layout ([[⟨1, 0⟩, ⟨0, 2⟩], [⟨0, 0⟩, ⟨1, 1⟩]] : Rows ℝ) := Or.inr ⟨_, _, rfl, rfl⟩
+example : 0 < energy ([[⟨1, 0⟩, ⟨0, 2⟩]] : Rows ℝ) := by norm_num [energy, sumSq, Cx.normSq]
 
 end OptiVerif.Props.C08
